@@ -7,6 +7,7 @@ import (
 	"os"
 	"path/filepath"
 	"strings"
+	"syscall"
 
 	"github.com/johannesboyne/gofakes3"
 	"github.com/spf13/afero"
@@ -120,4 +121,11 @@ func cleanKeyPath(p string) bool {
 // without aliasing another path: see cleanKeyPath.
 func errUnsupportedKey(key string) error {
 	return gofakes3.ErrorMessagef(gofakes3.ErrInvalidArgument, "key %q is not supported by this backend: empty, '.' and '..' path segments cannot be stored", key)
+}
+
+// noSuchFile reports whether err means that no file exists at a path: either
+// nothing is there, or a parent of it is a regular file (another object), in
+// which case nothing can be below it.
+func noSuchFile(err error) bool {
+	return os.IsNotExist(err) || errors.Is(err, syscall.ENOTDIR)
 }
